@@ -325,12 +325,10 @@ def python_frame_values(ctx: Ctx, py: PyProgram) -> None:
         ok = False
         for a in arms:
             ag = {(unparse(x), pol) for x, pol, _o in gt.guards_of(gt.node_of(a)) if isinstance(x, ast.AST)}
-            if ag <= lg or ag == lg:
+            # armed under the same conditions as the latch (or weaker); a further `source is X` selection of the same source is not stricter
+            extra = {t for t, _p in ag - lg if not t.replace(" ", "").startswith("sourceis")}
+            if not extra and any(src in t for t, _p in ag | lg):
                 ok = True
-            elif lg <= ag and any(src in t for t, _p in ag):
-                extra = sorted(t for t, _p in ag - lg)
-                if all(src not in t or "source is" in t for t in extra) and all("source is" in t for t in extra):
-                    ok = True
         if not ok:
             ctx.violation("C12.1/latch-arms", key_of(EMU, "PCE500Emulator._tick_timers", f"{src} latch without arming the dispatcher"),
                           f"the {src} status bit is latched in ISR, but `_irq_pending = True` for it is under a stricter condition: a request latched while masked is not delivered once the program unmasks it", f"{EMU}:{c.lineno}")
